@@ -6,6 +6,8 @@ import Isotp.Spec.Segment
 namespace Isotp.Rx
 open Isotp Isotp.State
 
+/-! ### A. the decoder on well-formed data fields -/
+
 theorem decode_prefix (pre body : Bytes) :
     decode (pre ++ body) pre.length =
       (decodeBody body).map (fun p => ⟨p, (pre ++ body).length, max 8 (pre ++ body).length⟩) := by
@@ -1138,5 +1140,740 @@ theorem wellFormed_nothing_earlier (s s'' : State) (pre p : Bytes) (frames fs re
     cases hf with
     | done h => simp [delivered, h.trace]
   · exact (segmented_nothing_earlier s s'' pre p frames fs rest hseg hpre hmax hsplit hne hf).1
+
+
+
+/-! ### complete case analysis of `processRx` -/
+
+/-- Complete case analysis of `processRx`: to prove `P (s.processRx m)` it is enough to prove it for
+    the thirteen explicit outcomes. -/
+theorem processRx_cases (s : State) (m : CanMsg) (P : State × Bool × Bool → Prop)
+    (h_none : decode m.data s.addr.rx.rxPrefixSize = none →
+      P ({ s with actualRxdl := none, rxState := .idle, rxBuf := [], pendingFc := false, lastFc := none,
+                  timerCf := s.timerCf.stop, log := .err s.now .InvalidCanData :: s.log }, false, false))
+    (h_fc : ∀ st bs stm cdl rdl, decode m.data s.addr.rx.rxPrefixSize = some ⟨.fc st bs stm, cdl, rdl⟩ →
+      P ({ s with lastFc := some ⟨st, bs, stm⟩ }, true, false))
+    (h_sf_noesc : ∀ len data cdl rdl, decode m.data s.addr.rx.rxPrefixSize = some ⟨.sf len data false, cdl, rdl⟩ →
+      cdl > 8 → P ({ s with log := .err s.now .MissingEscapeSequence :: s.log }, false, false))
+    (h_sf_idle : ∀ len data esc cdl rdl, decode m.data s.addr.rx.rxPrefixSize = some ⟨.sf len data esc, cdl, rdl⟩ →
+      (cdl ≤ 8 ∨ esc = true) → s.rxState = .idle →
+      P ({ s with rxFrameLen := 0, timerCf := s.timerCf.stop, log := .deliver data :: s.log,
+                  rxQueue := s.rxQueue ++ [data] }, s.pendingFc, true))
+    (h_sf_wait : ∀ len data esc cdl rdl, decode m.data s.addr.rx.rxPrefixSize = some ⟨.sf len data esc, cdl, rdl⟩ →
+      (cdl ≤ 8 ∨ esc = true) → s.rxState = .waitCf →
+      P ({ s with actualRxdl := none, rxState := .idle, rxBuf := [], pendingFc := false, lastFc := none,
+                  timerCf := s.timerCf.stop,
+                  log := .err s.now .InterruptedWithSingleFrame :: .deliver data :: s.log,
+                  rxQueue := s.rxQueue ++ [data] }, false, true))
+    (h_ff_ok : ∀ len data esc cdl rdl, decode m.data s.addr.rx.rxPrefixSize = some ⟨.ff len data esc, cdl, rdl⟩ →
+      validTxDl rdl = true → len ≤ s.cfg.maxFrameSize →
+      P ({ s with rxState := .waitCf, rxFrameLen := len, rxBuf := data, lastSeq := 0, rxBlockCnt := 0,
+                  actualRxdl := some rdl, pendingFc := true, pendingFcStatus := some 0,
+                  timerCf := { start := some s.now, timeout := s.cfg.tCf },
+                  log := if s.rxState = .idle then s.log else .err s.now .InterruptedWithFirstFrame :: s.log },
+          true, false))
+    (h_ff_rxdl : ∀ len data esc cdl rdl, decode m.data s.addr.rx.rxPrefixSize = some ⟨.ff len data esc, cdl, rdl⟩ →
+      validTxDl rdl = false →
+      P ({ s with rxState := .idle, rxFrameLen := if s.rxState = .idle then 0 else s.rxFrameLen,
+                  rxBuf := [], actualRxdl := none, pendingFc := false, lastFc := none,
+                  timerCf := s.timerCf.stop,
+                  log := if s.rxState = .idle then .err s.now .InvalidCanFdFirstFrameRXDL :: s.log
+                         else .err s.now .InterruptedWithFirstFrame :: .err s.now .InvalidCanFdFirstFrameRXDL :: s.log },
+          false, false))
+    (h_ff_long : ∀ len data esc cdl rdl, decode m.data s.addr.rx.rxPrefixSize = some ⟨.ff len data esc, cdl, rdl⟩ →
+      validTxDl rdl = true → len > s.cfg.maxFrameSize →
+      P ({ s with rxState := .idle, rxFrameLen := if s.rxState = .idle then 0 else s.rxFrameLen,
+                  rxBuf := [], actualRxdl := none, pendingFc := true, pendingFcStatus := some 2, lastFc := none,
+                  lastSeq := 0, rxBlockCnt := 0,
+                  timerCf := s.timerCf.stop,
+                  log := if s.rxState = .idle then .err s.now .FrameTooLong :: s.log
+                         else .err s.now .InterruptedWithFirstFrame :: .err s.now .FrameTooLong :: s.log },
+          true, false))
+    (h_cf_idle : ∀ sn data cdl rdl, decode m.data s.addr.rx.rxPrefixSize = some ⟨.cf sn data, cdl, rdl⟩ →
+      s.rxState = .idle →
+      P ({ s with rxFrameLen := 0, timerCf := s.timerCf.stop,
+                  log := .err s.now .UnexpectedConsecutiveFrame :: s.log }, s.pendingFc, false))
+    (h_cf_sn : ∀ sn data cdl rdl, decode m.data s.addr.rx.rxPrefixSize = some ⟨.cf sn data, cdl, rdl⟩ →
+      s.rxState = .waitCf → sn ≠ (s.lastSeq + 1) % 16 →
+      P ({ s with actualRxdl := none, rxState := .idle, rxBuf := [], pendingFc := false, lastFc := none,
+                  timerCf := s.timerCf.stop, log := .err s.now .WrongSequenceNumber :: s.log }, false, false))
+    (h_cf_rxdl : ∀ sn data cdl rdl, decode m.data s.addr.rx.rxPrefixSize = some ⟨.cf sn data, cdl, rdl⟩ →
+      s.rxState = .waitCf → sn = (s.lastSeq + 1) % 16 →
+      s.actualRxdl ≠ some rdl → rdl < s.rxFrameLen - s.rxBuf.length →
+      P ({ s with log := .err s.now .ChangingInvalidRXDL :: s.log }, false, false))
+    (h_cf_last : ∀ sn data cdl rdl, decode m.data s.addr.rx.rxPrefixSize = some ⟨.cf sn data, cdl, rdl⟩ →
+      s.rxState = .waitCf → sn = (s.lastSeq + 1) % 16 →
+      (s.actualRxdl = some rdl ∨ s.rxFrameLen - s.rxBuf.length ≤ rdl) →
+      s.rxFrameLen ≤ (s.rxBuf ++ data.take (s.rxFrameLen - s.rxBuf.length)).length →
+      P ({ s with lastSeq := sn, actualRxdl := none, rxState := .idle, rxBuf := [], pendingFc := false,
+                  lastFc := none, timerCf := { start := none, timeout := s.cfg.tCf },
+                  log := .deliver (s.rxBuf ++ data.take (s.rxFrameLen - s.rxBuf.length)) :: s.log,
+                  rxQueue := s.rxQueue ++ [s.rxBuf ++ data.take (s.rxFrameLen - s.rxBuf.length)] },
+          false, true))
+    (h_cf_more : ∀ sn data cdl rdl, decode m.data s.addr.rx.rxPrefixSize = some ⟨.cf sn data, cdl, rdl⟩ →
+      s.rxState = .waitCf → sn = (s.lastSeq + 1) % 16 →
+      (s.actualRxdl = some rdl ∨ s.rxFrameLen - s.rxBuf.length ≤ rdl) →
+      (s.rxBuf ++ data.take (s.rxFrameLen - s.rxBuf.length)).length < s.rxFrameLen →
+      P (if 0 < s.cfg.blocksize ∧ (s.rxBlockCnt + 1) % s.cfg.blocksize = 0 then
+          ({ s with lastSeq := sn, rxBuf := s.rxBuf ++ data.take (s.rxFrameLen - s.rxBuf.length),
+                    rxBlockCnt := s.rxBlockCnt + 1, pendingFc := true, pendingFcStatus := some 0,
+                    timerCf := { start := none, timeout := s.cfg.tCf } }, true, false)
+        else
+          ({ s with lastSeq := sn, rxBuf := s.rxBuf ++ data.take (s.rxFrameLen - s.rxBuf.length),
+                    rxBlockCnt := s.rxBlockCnt + 1,
+                    timerCf := { start := some s.now, timeout := s.cfg.tCf } }, s.pendingFc, false))) :
+    P (s.processRx m) := by
+  cases hd : decode m.data s.addr.rx.rxPrefixSize with
+  | none => rw [processRx_none_eq s m hd]; exact h_none hd
+  | some d =>
+    obtain ⟨pdu, cdl, rdl⟩ := d
+    cases pdu with
+    | fc st bs stm => rw [processRx_fc_eq s m _ _ _ _ _ hd]; exact h_fc _ _ _ _ _ hd
+    | sf len data esc =>
+      by_cases h8 : cdl ≤ 8 ∨ esc = true
+      · cases hs : s.rxState
+        · rw [processRx_sf_idle_eq s m _ _ _ _ _ hd h8 hs]; exact h_sf_idle _ _ _ _ _ hd h8 hs
+        · rw [processRx_sf_waitCf_eq s m _ _ _ _ _ hd h8 hs]; exact h_sf_wait _ _ _ _ _ hd h8 hs
+      · have he : esc = false := by cases esc <;> simp_all
+        subst he
+        have h8' : cdl > 8 := by omega
+        rw [processRx_sf_noescape_eq s m _ _ _ _ hd h8']; exact h_sf_noesc _ _ _ _ hd h8'
+    | ff len data esc =>
+      cases hv : validTxDl rdl
+      · rw [processRx_ff_badRxdl_eq s m _ _ _ _ _ hd hv]; exact h_ff_rxdl _ _ _ _ _ hd hv
+      · by_cases hl : len ≤ s.cfg.maxFrameSize
+        · rw [processRx_ff_ok_eq s m _ _ _ _ _ hd hv hl]; exact h_ff_ok _ _ _ _ _ hd hv hl
+        · have hl' : len > s.cfg.maxFrameSize := by omega
+          rw [processRx_ff_tooLong_eq s m _ _ _ _ _ hd hv hl']; exact h_ff_long _ _ _ _ _ hd hv hl'
+    | cf sn data =>
+      cases hs : s.rxState
+      · rw [processRx_cf_idle_eq s m _ _ _ _ hd hs]; exact h_cf_idle _ _ _ _ hd hs
+      · by_cases hsn : sn = (s.lastSeq + 1) % 16
+        · by_cases hok : s.actualRxdl = some rdl ∨ s.rxFrameLen - s.rxBuf.length ≤ rdl
+          · by_cases hfull : s.rxFrameLen ≤ (s.rxBuf ++ data.take (s.rxFrameLen - s.rxBuf.length)).length
+            · rw [processRx_cf_last_eq s m _ _ _ _ hd hs hsn hok hfull]
+              exact h_cf_last _ _ _ _ hd hs hsn hok hfull
+            · have hmore := Nat.lt_of_not_le hfull
+              rw [processRx_cf_more_eq s m _ _ _ _ hd hs hsn hok hmore]
+              exact h_cf_more _ _ _ _ hd hs hsn hok hmore
+          · have h1 : s.actualRxdl ≠ some rdl := fun h => hok (Or.inl h)
+            have h2 : rdl < s.rxFrameLen - s.rxBuf.length := by
+              apply Nat.lt_of_not_le; intro h; exact hok (Or.inr h)
+            rw [processRx_cf_changingRxdl_eq s m _ _ _ _ hd hs hsn h1 h2]
+            exact h_cf_rxdl _ _ _ _ hd hs hsn h1 h2
+        · rw [processRx_cf_wrongSn_eq s m _ _ _ _ hd hs hsn]; exact h_cf_sn _ _ _ _ hd hs hsn
+
+
+/-! ### general facts about `decode` -/
+
+theorem decode_some (d : Bytes) (k : Nat) (x : Decoded) (h : decode d k = some x) :
+    decodeBody (d.drop k) = some x.pdu ∧ x.canDl = d.length ∧ x.rxDl = max 8 d.length ∧ k ≤ d.length := by
+  unfold decode at h
+  split at h
+  · exact absurd h (by simp)
+  · split at h
+    · exact absurd h (by simp)
+    · rename_i p hp
+      have := Option.some.inj h
+      subst this
+      exact ⟨hp, rfl, rfl, by omega⟩
+
+theorem decodeBody_ff_len (b : Bytes) (len : Nat) (data : Bytes) (esc : Bool)
+    (h : decodeBody b = some (.ff len data esc)) : data.length ≤ len := by
+  unfold decodeBody at h; dsimp only at h
+  repeat' split at h
+  all_goals try (simp only [reduceCtorEq, Option.some.injEq] at h; done)
+  all_goals
+    simp only [Option.some.injEq, Pdu.ff.injEq] at h
+    obtain ⟨h1, h2, _⟩ := h
+    subst h1 h2
+    rw [List.length_take]
+    exact Nat.le_trans (Nat.min_le_left _ _) (Nat.min_le_left _ _)
+
+theorem decode_ff_len (d : Bytes) (k len : Nat) (data : Bytes) (esc : Bool) (cdl rdl : Nat)
+    (h : decode d k = some ⟨.ff len data esc, cdl, rdl⟩) : data.length ≤ len :=
+  decodeBody_ff_len _ _ _ _ (decode_some d k _ h).1
+
+/-- the 12-bit First Frame length field is never 0 -/
+theorem decodeBody_ff_pos (b : Bytes) (len : Nat) (data : Bytes)
+    (h : decodeBody b = some (.ff len data false)) : 0 < len := by
+  unfold decodeBody at h; dsimp only at h
+  repeat' split at h
+  all_goals try (simp only [reduceCtorEq, Option.some.injEq, Pdu.ff.injEq, and_false] at h; done)
+  all_goals
+    simp only [Option.some.injEq, Pdu.ff.injEq] at h
+    obtain ⟨h1, _, _⟩ := h
+    omega
+
+
+
+theorem rxTrace_append (s s' : State) (evs : List Ev) (h : s'.log = evs ++ s.log) :
+    rxTrace s' = rxTrace s ++ evs.reverse.filterMap rxEv := by
+  simp [rxTrace, h, List.filterMap_append]
+
+theorem delivered_append (s s' : State) (evs : List Ev) (h : s'.log = evs ++ s.log) :
+    delivered s' = delivered s ++ (evs.reverse.filterMap rxEv).filterMap RxEv.payload := by
+  simp [delivered, rxTrace_append s s' evs h, List.filterMap_append]
+
+theorem delivered_same (s s' : State) (h : s'.log = s.log) : delivered s' = delivered s ++ [] := by
+  simp [delivered, rxTrace, h]
+
+/-- the rx queue grows exactly by what is logged as delivered -/
+theorem processRx_queue_sync (s : State) (m : CanMsg) :
+    ∃ l, (s.processRx m).1.rxQueue = s.rxQueue ++ l ∧ delivered (s.processRx m).1 = delivered s ++ l := by
+  refine processRx_cases s m (fun r => ∃ l, r.1.rxQueue = s.rxQueue ++ l ∧ delivered r.1 = delivered s ++ l)
+    ?_ ?_ ?_ ?_ ?_ ?_ ?_ ?_ ?_ ?_ ?_ ?_ ?_
+  · intro _; exact ⟨[], by simp, by rw [delivered_append s _ [.err s.now .InvalidCanData] rfl]; simp [rxEv, isRxErr, RxEv.payload]⟩
+  · intro _ _ _ _ _ _; exact ⟨[], by simp, delivered_same s _ rfl⟩
+  · intro _ _ _ _ _ _; exact ⟨[], by simp, by rw [delivered_append s _ [.err s.now .MissingEscapeSequence] rfl]; simp [rxEv, isRxErr, RxEv.payload]⟩
+  · intro _ data _ _ _ _ _ _; exact ⟨[data], by simp, by rw [delivered_append s _ [.deliver data] rfl]; simp [rxEv, RxEv.payload]⟩
+  · intro _ data _ _ _ _ _ _
+    exact ⟨[data], by simp, by
+      rw [delivered_append s _ [.err s.now .InterruptedWithSingleFrame, .deliver data] rfl]; simp [rxEv, isRxErr, RxEv.payload]⟩
+  · intro _ _ _ _ _ _ _ _
+    refine ⟨[], by simp, ?_⟩
+    by_cases hi : s.rxState = .idle
+    · rw [delivered_append s _ [] (by simp [hi])]; simp
+    · rw [delivered_append s _ [.err s.now .InterruptedWithFirstFrame] (by simp [hi])]; simp [rxEv, isRxErr, RxEv.payload]
+  · intro _ _ _ _ _ _ _
+    refine ⟨[], by simp, ?_⟩
+    by_cases hi : s.rxState = .idle
+    · rw [delivered_append s _ [.err s.now .InvalidCanFdFirstFrameRXDL] (by simp [hi])]; simp [rxEv, isRxErr, RxEv.payload]
+    · rw [delivered_append s _ [.err s.now .InterruptedWithFirstFrame, .err s.now .InvalidCanFdFirstFrameRXDL] (by simp [hi])]
+      simp [rxEv, isRxErr, RxEv.payload]
+  · intro _ _ _ _ _ _ _ _
+    refine ⟨[], by simp, ?_⟩
+    by_cases hi : s.rxState = .idle
+    · rw [delivered_append s _ [.err s.now .FrameTooLong] (by simp [hi])]; simp [rxEv, isRxErr, RxEv.payload]
+    · rw [delivered_append s _ [.err s.now .InterruptedWithFirstFrame, .err s.now .FrameTooLong] (by simp [hi])]
+      simp [rxEv, isRxErr, RxEv.payload]
+  · intro _ _ _ _ _ _; exact ⟨[], by simp, by rw [delivered_append s _ [.err s.now .UnexpectedConsecutiveFrame] rfl]; simp [rxEv, isRxErr, RxEv.payload]⟩
+  · intro _ _ _ _ _ _ _; exact ⟨[], by simp, by rw [delivered_append s _ [.err s.now .WrongSequenceNumber] rfl]; simp [rxEv, isRxErr, RxEv.payload]⟩
+  · intro _ _ _ _ _ _ _ _ _; exact ⟨[], by simp, by rw [delivered_append s _ [.err s.now .ChangingInvalidRXDL] rfl]; simp [rxEv, isRxErr, RxEv.payload]⟩
+  · intro _ data _ _ _ _ _ _ _
+    exact ⟨[s.rxBuf ++ data.take (s.rxFrameLen - s.rxBuf.length)], by simp, by
+      rw [delivered_append s _ [.deliver (s.rxBuf ++ data.take (s.rxFrameLen - s.rxBuf.length))] rfl]; simp [rxEv, RxEv.payload]⟩
+  · intro _ _ _ _ _ _ _ _ _
+    split <;> exact ⟨[], by simp, delivered_same s _ rfl⟩
+
+theorem feed_queue_sync (ms : List CanMsg) : ∀ s : State,
+    ∃ l, (feed s ms).rxQueue = s.rxQueue ++ l ∧ delivered (feed s ms) = delivered s ++ l := by
+  induction ms with
+  | nil => intro s; exact ⟨[], by simp [feed], by simp [feed]⟩
+  | cons m ms ih =>
+    intro s
+    obtain ⟨l1, h1, h2⟩ := processRx_queue_sync s m
+    obtain ⟨l2, h3, h4⟩ := ih (s.processRx m).1
+    refine ⟨l1 ++ l2, ?_, ?_⟩
+    · show (feed (s.processRx m).1 ms).rxQueue = _
+      rw [h3, h1, List.append_assoc]
+    · show delivered (feed (s.processRx m).1 ms) = _
+      rw [h4, h2, List.append_assoc]
+
+
+/-- C03 for the plain fold (nothing between the frames): `recv()` gets exactly `p`. -/
+theorem feed_wellFormed (s : State) (ms : List CanMsg) (pre p : Bytes)
+    (hw : Spec.WellFormed pre p (ms.map (·.data))) (hpre : pre.length = s.addr.rx.rxPrefixSize)
+    (hmax : p.length ≤ s.cfg.maxFrameSize) :
+    (feed s ms).rxQueue = s.rxQueue ++ [p] ∧ (feed s ms).rxState = .idle ∧
+      (s.rxState = .idle → rxTrace (feed s ms) = rxTrace s ++ [.deliver p]) := by
+  obtain ⟨hd, hst, htr⟩ := wellFormed_delivers s (feed s ms) pre p _ hw hpre hmax (feeds_feed ms s)
+  obtain ⟨l, hq, hl⟩ := feed_queue_sync ms s
+  rw [hd] at hl
+  have := List.append_cancel_left hl
+  subst this
+  exact ⟨hq, hst, htr⟩
+
+theorem feed_nothing_earlier (s : State) (ms rest : List CanMsg) (pre p : Bytes)
+    (hw : Spec.WellFormed pre p ((ms ++ rest).map (·.data))) (hne : rest ≠ [])
+    (hpre : pre.length = s.addr.rx.rxPrefixSize) (hmax : p.length ≤ s.cfg.maxFrameSize) :
+    (feed s ms).rxQueue = s.rxQueue := by
+  have hd := wellFormed_nothing_earlier s (feed s ms) pre p _ (ms.map (·.data)) (rest.map (·.data)) hw hpre hmax
+    (by simp) (by simpa using hne) (feeds_feed ms s)
+  obtain ⟨l, hq, hl⟩ := feed_queue_sync ms s
+  rw [hd] at hl
+  have : l = [] := by
+    have h0 : delivered s ++ [] = delivered s ++ l := by rw [List.append_nil]; exact hl
+    exact (List.append_cancel_left h0).symm
+  rw [hq, this, List.append_nil]
+
+/-! ### the invariant of the reception FSM -/
+
+structure RxInv (s : State) : Prop where
+  idle : s.rxState = .idle → s.rxBuf = [] ∧ s.actualRxdl = none
+  wait : s.rxState = .waitCf →
+    s.rxBuf.length ≤ s.rxFrameLen ∧ s.rxFrameLen ≤ s.cfg.maxFrameSize ∧ s.actualRxdl.isSome = true
+
+theorem rxInv_init (c : Cfg) (a : Addr) : RxInv (State.init c a) :=
+  ⟨fun _ => ⟨rfl, rfl⟩, fun h => by simp [State.init] at h⟩
+
+theorem rxInv_of_same {s s' : State} (h : RxInv s) (hs : RxSame s s') : RxInv s' := by
+  have e : rxView s' = rxView s := hs
+  have e0 := congrArg RxView.cfg e
+  have e1 := congrArg RxView.rxState e
+  have e2 := congrArg RxView.rxBuf e
+  have e3 := congrArg RxView.rxFrameLen e
+  have e6 := congrArg RxView.actualRxdl e
+  simp only [rxView] at e0 e1 e2 e3 e6
+  constructor
+  · intro hi; rw [e2, e6]; exact h.idle (e1 ▸ hi)
+  · intro hw; rw [e2, e3, e6, e0]; exact h.wait (e1 ▸ hw)
+
+theorem rxInv_stopReceiving (s : State) : RxInv s.stopReceiving :=
+  ⟨fun _ => ⟨rfl, rfl⟩, fun h => by simp [stopReceiving] at h⟩
+
+theorem rxInv_checkTimeoutsRx (s : State) (h : RxInv s) : RxInv s.checkTimeoutsRx := by
+  unfold checkTimeoutsRx; split
+  · exact rxInv_stopReceiving _
+  · exact h
+
+theorem rxInv_processTx (s : State) (h : RxInv s) : RxInv s.processTx.1 := rxInv_of_same h (rxSame_processTx s)
+
+theorem rxInv_reset (s : State) : RxInv s.reset :=
+  ⟨fun _ => ⟨rfl, rfl⟩, fun h => by simp [reset, stopReceiving] at h⟩
+
+theorem rxInv_processRx (s : State) (m : CanMsg) (h : RxInv s) : RxInv (s.processRx m).1 := by
+  refine processRx_cases s m (fun r => RxInv r.1) ?_ ?_ ?_ ?_ ?_ ?_ ?_ ?_ ?_ ?_ ?_ ?_ ?_
+  · intro _; exact ⟨fun _ => ⟨rfl, rfl⟩, fun h => by simp at h⟩
+  · intro _ _ _ _ _ _; exact ⟨h.idle, h.wait⟩
+  · intro _ _ _ _ _ _; exact ⟨h.idle, h.wait⟩
+  · intro _ _ _ _ _ _ _ hs; exact ⟨fun _ => h.idle hs, fun hw => by simp [hs] at hw⟩
+  · intro _ _ _ _ _ _ _ _; exact ⟨fun _ => ⟨rfl, rfl⟩, fun h => by simp at h⟩
+  · intro len data _ _ _ hd _ hl
+    exact ⟨fun h => by simp at h, fun _ => ⟨decode_ff_len _ _ _ _ _ _ _ hd, hl, rfl⟩⟩
+  · intro _ _ _ _ _ _ _; exact ⟨fun _ => ⟨rfl, rfl⟩, fun h => by simp at h⟩
+  · intro _ _ _ _ _ _ _ _; exact ⟨fun _ => ⟨rfl, rfl⟩, fun h => by simp at h⟩
+  · intro _ _ _ _ _ hs; exact ⟨fun _ => h.idle hs, fun hw => by simp [hs] at hw⟩
+  · intro _ _ _ _ _ _ _; exact ⟨fun _ => ⟨rfl, rfl⟩, fun h => by simp at h⟩
+  · intro _ _ _ _ _ _ _ _ _; exact ⟨h.idle, h.wait⟩
+  · intro _ _ _ _ _ _ _ _ _; exact ⟨fun _ => ⟨rfl, rfl⟩, fun h => by simp at h⟩
+  · intro _ _ _ _ _ hs _ _ hmore
+    have hw := h.wait hs
+    split
+    · exact ⟨fun hi => by simp [hs] at hi, fun _ => ⟨Nat.le_of_lt hmore, hw.2.1, hw.2.2⟩⟩
+    · exact ⟨fun hi => by simp [hs] at hi, fun _ => ⟨Nat.le_of_lt hmore, hw.2.1, hw.2.2⟩⟩
+
+
+
+/-! ### deliveries are whole messages -/
+
+/-- every delivery made by `processRx` is either the payload of the Single Frame just received, or the
+    completed buffer of the reception in progress, whose length is exactly the announced length -/
+theorem processRx_deliver_cases (s : State) (m : CanMsg) (h : RxInv s) :
+    delivered (s.processRx m).1 = delivered s ∨
+    (∃ len data esc cdl rdl, decode m.data s.addr.rx.rxPrefixSize = some ⟨.sf len data esc, cdl, rdl⟩ ∧
+        delivered (s.processRx m).1 = delivered s ++ [data]) ∨
+    (∃ sn data cdl rdl q, decode m.data s.addr.rx.rxPrefixSize = some ⟨.cf sn data, cdl, rdl⟩ ∧
+        s.rxState = .waitCf ∧ delivered (s.processRx m).1 = delivered s ++ [q] ∧
+        q.length = s.rxFrameLen ∧ s.rxBuf <+: q) := by
+  obtain ⟨l, hq, hl⟩ := processRx_queue_sync s m
+  revert hq hl
+  refine processRx_cases s m (fun r => r.1.rxQueue = s.rxQueue ++ l → delivered r.1 = delivered s ++ l → 
+      (delivered r.1 = delivered s ∨
+      (∃ len data esc cdl rdl, decode m.data s.addr.rx.rxPrefixSize = some ⟨.sf len data esc, cdl, rdl⟩ ∧
+          delivered r.1 = delivered s ++ [data]) ∨
+      (∃ sn data cdl rdl q, decode m.data s.addr.rx.rxPrefixSize = some ⟨.cf sn data, cdl, rdl⟩ ∧
+          s.rxState = .waitCf ∧ delivered r.1 = delivered s ++ [q] ∧
+          q.length = s.rxFrameLen ∧ s.rxBuf <+: q)))
+    ?_ ?_ ?_ ?_ ?_ ?_ ?_ ?_ ?_ ?_ ?_ ?_ ?_
+  case refine_4 =>
+    intro len data esc cdl rdl hd _ _ hq hl
+    have : l = [data] := (List.append_cancel_left hq).symm
+    subst this
+    exact Or.inr (Or.inl ⟨_, _, _, _, _, hd, hl⟩)
+  case refine_5 =>
+    intro len data esc cdl rdl hd _ _ hq hl
+    have : l = [data] := (List.append_cancel_left hq).symm
+    subst this
+    exact Or.inr (Or.inl ⟨_, _, _, _, _, hd, hl⟩)
+  case refine_12 =>
+    intro sn data cdl rdl hd hs _ _ hfull hq hl
+    have : l = [s.rxBuf ++ data.take (s.rxFrameLen - s.rxBuf.length)] := (List.append_cancel_left hq).symm
+    subst this
+    refine Or.inr (Or.inr ⟨_, _, _, _, _, hd, hs, hl, ?_, List.prefix_append _ _⟩)
+    have := (h.wait hs).1
+    simp only [List.length_append, List.length_take] at hfull ⊢
+    omega
+  case refine_13 =>
+    intro sn data cdl rdl _ _ _ _ _
+    split <;>
+    · intro hq hl
+      have : l = [] := by simpa using hq
+      subst this
+      exact Or.inl (by simpa using hl)
+  all_goals
+    intros
+    rename_i hq hl
+    have : l = [] := by simpa using hq
+    subst this
+    exact Or.inl (by simpa using hl)
+
+
+/-! ### Flow Control emission (B5) -/
+
+/-- a pending Flow Control is sent by the very next transmit pass, before anything else -/
+theorem processTx_sends_fc (s : State) (st : Nat) (msg : CanMsg) (hp : s.pendingFc = true)
+    (hst : s.pendingFcStatus = some st) (hl : s.cfg.listen = false)
+    (hm : makeFlowControl s.cfg s.addr st = some msg) :
+    s.processTx =
+      ({ s with pendingFc := false,
+                timerCf := if st = 0 then { start := some s.now, timeout := s.cfg.tCf } else s.timerCf },
+       some msg, true) := by
+  rw [processTx_eq]
+  have : pendPart s =
+      ({ s with pendingFc := false,
+                timerCf := if st = 0 then { start := some s.now, timeout := s.cfg.tCf } else s.timerCf },
+       some (some msg)) := by
+    unfold pendPart
+    by_cases h0 : st = 0
+    · subst h0; simp [hp, hst, hl, startRxCfTimer, hm]
+    · simp [hp, hst, hl, h0, hm]
+  rw [this]
+
+/-- in listen mode the request is consumed silently: no frame for it -/
+theorem pendPart_listen (s : State) (st : Nat) (hp : s.pendingFc = true)
+    (hst : s.pendingFcStatus = some st) (hl : s.cfg.listen = true) :
+    (pendPart s).2 = none ∧ (pendPart s).1.pendingFc = false := by
+  unfold pendPart
+  by_cases h0 : st = 0
+  · subst h0; simp [hp, hst, hl, startRxCfTimer]
+  · simp [hp, hst, hl, h0]
+
+theorem txTail_silent (s : State) (a : Nat) (h3 : s.txState = .idle) (h4 : s.txQueue = [])
+    (h5 : s.timerFc.timedOut s.now = false) : (txTail s a).2.1 = none := by
+  have ht : tailTimeout s = s := by unfold tailTimeout; simp [h5]
+  have hd : tailDepleted s = s := by unfold tailDepleted; simp [h3]
+  have hf : fsmPart s a = ({ s with txQueue := [] }, none, false) := by
+    unfold fsmPart; simp [h3, h4, readTxQueue]
+  unfold txTail
+  rw [ht, hd, hf]
+  simp only [h3]
+  unfold tailOut
+  simp only [ne_eq, not_true_eq_false, decide_false, Bool.false_and, Bool.false_eq_true, if_false]
+  split <;> rfl
+
+/-- with nothing pending, nothing received and nothing to transmit, a transmit pass emits nothing -/
+theorem processTx_silent (s : State) (h1 : s.pendingFc = false) (h2 : s.lastFc = none)
+    (h3 : s.txState = .idle) (h4 : s.txQueue = []) (h5 : s.timerFc.timedOut s.now = false) :
+    s.processTx.2.1 = none := by
+  rw [processTx_eq]
+  have hp : pendPart s = (s, none) := by unfold pendPart; simp [h1]
+  rw [hp]
+  have hf : fcPart s = ({ s with lastFc := none }, false) := by unfold fcPart; simp [h2]
+  simp only [hf]
+  exact txTail_silent _ _ h3 h4 h5
+
+
+/-! ### content of the Flow Control frame -/
+
+theorem fcData_cts (bs stmin : Nat) (hb : bs ≤ 255) (hs : stmin ≤ 255) :
+    fcData 0 bs stmin = [0x30, u8 bs, u8 stmin] := by
+  have h1 : bs % 256 = bs := by omega
+  have h2 : stmin % 256 = stmin := by omega
+  simp [fcData, h1, h2]; rfl
+
+theorem fcData_overflow (bs stmin : Nat) (hb : bs ≤ 255) (hs : stmin ≤ 255) :
+    fcData 2 bs stmin = [0x32, u8 bs, u8 stmin] := by
+  have h1 : bs % 256 = bs := by omega
+  have h2 : stmin % 256 = stmin := by omega
+  simp [fcData, h1, h2]; rfl
+
+theorem txPrefix_length_le (h : Half) : h.txPrefix.length ≤ 1 := by
+  unfold Half.txPrefix; split <;> simp
+
+theorem leastLegal_of_legal (n : Nat) (h : Spec.legal n) : Spec.leastLegal n = n := by
+  simp only [Spec.legal, Spec.legalLens, List.mem_cons, List.not_mem_nil, or_false] at h
+  rcases h with h | h | h | h | h | h | h | h | h | h | h | h | h | h | h | h <;> subst h <;> rfl
+
+theorem legal_le8 (n : Nat) (h : n ≤ 8) : Spec.legal n := by
+  simp only [Spec.legal, Spec.legalLens, List.mem_cons, List.not_mem_nil, or_false]; omega
+
+theorem legal_validTxDl (n : Nat) (h : validTxDl n = true) : Spec.legal n := by
+  simp [validTxDl] at h
+  simp only [Spec.legal, Spec.legalLens, List.mem_cons, List.not_mem_nil, or_false]; omega
+
+/-- for a short frame (at most 8 meaningful bytes) the model's padded length is the documented one -/
+theorem padLen_short (c : Cfg) (a : Addr) (n : Nat) (hv : c.valid = true) (hn : n ≤ 8) :
+    padLen c n = some (Spec.padTarget (Spec.TxCfg.of c a) n) ∧ Spec.legal (Spec.padTarget (Spec.TxCfg.of c a) n)
+      ∧ n ≤ Spec.padTarget (Spec.TxCfg.of c a) n ∧ (c.txDl = 8 → Spec.padTarget (Spec.TxCfg.of c a) n ≤ 8) := by
+  simp only [Cfg.valid, Bool.and_eq_true, decide_eq_true_eq] at hv
+  obtain ⟨⟨⟨⟨⟨htx, _⟩, _⟩, _⟩, hmin⟩, _⟩ := hv
+  have htx' := htx
+  simp [validTxDl] at htx'
+  unfold padLen Spec.padTarget Spec.floorLen Spec.TxCfg.of
+  cases hm : c.txMinLen with
+  | none =>
+    simp only []
+    by_cases h8 : c.txDl = 8
+    · cases hp : c.txPadding with
+      | none =>
+        have hl : Spec.legal n := legal_le8 _ hn
+        simp [h8, leastLegal_of_legal _ hl, hl]; exact hn
+      | some pb =>
+        have hl : Spec.legal (max n 8) := legal_le8 _ (by omega)
+        simp [h8, leastLegal_of_legal _ hl, hl]; omega
+    · have hl : Spec.legal n := legal_le8 _ hn
+      have hgt : c.txDl > 8 := by omega
+      have hnf : nearestFd n = some n := by simp [nearestFd, hn]
+      simp [h8, hgt, hnf, leastLegal_of_legal _ hl, hl]
+  | some mm =>
+    rw [hm] at hmin
+    simp only [Bool.and_eq_true, decide_eq_true_eq] at hmin
+    obtain ⟨hvm, hle⟩ := hmin
+    have hl : Spec.legal (max n mm) := by
+      simp only [validMinLen, Bool.or_eq_true, Bool.and_eq_true, decide_eq_true_eq] at hvm
+      rcases hvm with h | h
+      · exact legal_le8 _ (by omega)
+      · by_cases hmn : mm ≤ n
+        · exact legal_le8 _ (by omega)
+        · have : max n mm = mm := by omega
+          rw [this]; exact legal_validTxDl _ h
+    simp only []
+    by_cases h8 : c.txDl = 8
+    · simp [h8, leastLegal_of_legal _ hl, hl]; omega
+    · have hgt : c.txDl > 8 := by omega
+      have hnf : nearestFd n = some n := by simp [nearestFd, hn]
+      simp [h8, hgt, hnf, leastLegal_of_legal _ hl, hl]
+      omega
+
+
+theorem dlcOf_legal (c : Cfg) (t : Nat) (hl : Spec.legal t) (h3 : 3 ≤ t) (h8 : c.txDl = 8 → t ≤ 8) :
+    ∃ d, dlcOf c t = some d := by
+  simp only [Spec.legal, Spec.legalLens, List.mem_cons, List.not_mem_nil, or_false] at hl
+  by_cases hc : c.txDl = 8
+  · have := h8 hc
+    rcases hl with h | h | h | h | h | h | h | h | h | h | h | h | h | h | h | h <;> subst h <;>
+      first | omega | simp [dlcOf, nearestFd, hc]
+  · rcases hl with h | h | h | h | h | h | h | h | h | h | h | h | h | h | h | h <;> subst h <;>
+      first | omega | simp [dlcOf, nearestFd, hc]
+
+theorem padByte_eq (c : Cfg) (a : Addr) (hv : c.valid = true) : padByte c = Spec.padByte (Spec.TxCfg.of c a) := by
+  simp only [Cfg.valid, Bool.and_eq_true, decide_eq_true_eq] at hv
+  obtain ⟨⟨⟨_, hp⟩, _⟩, _⟩ := hv
+  unfold padByte Spec.padByte Spec.TxCfg.of u8
+  cases h : c.txPadding with
+  | none => rfl
+  | some pb =>
+    rw [h] at hp
+    simp only [decide_eq_true_eq] at hp
+    have : pb % 256 = pb := by omega
+    simp [this]
+
+/-- B5: the Flow Control frame: physical tx identifier, address prefix, `[0x30 + status, BS, STmin]`,
+    padded as documented. It always exists for a validated configuration. -/
+theorem makeFlowControl_eq (c : Cfg) (a : Addr) (st : Nat) (hv : c.valid = true) :
+    ∃ dlc, makeFlowControl c a st = some
+      { id := a.tx.txId .physical, ext := a.tx.mode.is29,
+        data := Spec.padFrame (Spec.TxCfg.of c a) (a.tx.txPrefix ++ fcData st c.blocksize c.stmin),
+        dlc := dlc, fd := c.canFd, brs := c.brs } := by
+  have hpl := txPrefix_length_le a.tx
+  have hlen : (a.tx.txPrefix ++ fcData st c.blocksize c.stmin).length = a.tx.txPrefix.length + 3 := by
+    simp [fcData]
+  obtain ⟨hpad, hleg, hge, h8⟩ := padLen_short c a (a.tx.txPrefix.length + 3) hv (by omega)
+  obtain ⟨d, hd⟩ := dlcOf_legal c _ hleg (by omega) h8
+  refine ⟨d, ?_⟩
+  unfold makeFlowControl makeTxMsg pad
+  rw [hlen, hpad]
+  simp only [List.length_append, List.length_replicate, hlen]
+  have : a.tx.txPrefix.length + 3 + (Spec.padTarget (Spec.TxCfg.of c a) (a.tx.txPrefix.length + 3) - (a.tx.txPrefix.length + 3))
+      = Spec.padTarget (Spec.TxCfg.of c a) (a.tx.txPrefix.length + 3) := by omega
+  rw [this, hd]
+  simp only [Spec.padFrame, hlen, padByte_eq c a hv]
+
+
+
+/-! ### undecodable frames -/
+
+theorem decode_short (d : Bytes) (k : Nat) (h : d.length ≤ k) : decode d k = none := by
+  unfold decode
+  by_cases h' : d.length < k
+  · simp [h']
+  · have : d.drop k = [] := List.drop_eq_nil_iff.mpr h
+    simp [h', this, decodeBody]
+
+theorem decodeBody_unknown_type (b : Bytes) (h : 4 ≤ byteAt b 0 / 16) : decodeBody b = none := by
+  unfold decodeBody; dsimp only
+  have h0 : ¬ byteAt b 0 / 16 = 0 := by omega
+  have h1 : ¬ byteAt b 0 / 16 = 1 := by omega
+  have h2 : ¬ byteAt b 0 / 16 = 2 := by omega
+  have h3 : ¬ byteAt b 0 / 16 = 3 := by omega
+  simp only [h0, h1, h2, h3, if_false]
+  split <;> rfl
+
+theorem decode_unknown_type (pre b : Bytes) (h : 4 ≤ byteAt b 0 / 16) : decode (pre ++ b) pre.length = none := by
+  rw [decode_prefix, decodeBody_unknown_type b h]; rfl
+
+/-- Single Frame whose length nibble exceeds the bytes present -/
+theorem decodeBody_sf_truncated (n : Nat) (rest : Bytes) (h1 : 1 ≤ n) (h15 : n ≤ 15) (hr : rest.length < n) :
+    decodeBody (u8 n :: rest) = none := by
+  have hb : (u8 n).toNat = n := by rw [u8_toNat]; omega
+  have h16 : n < 16 := by omega
+  have hm : n % 16 = n := by omega
+  have hne : ¬ n = 0 := by omega
+  simp [decodeBody, byteAt_cons_zero, hb, h16, hm, hne]
+  omega
+
+/-- First Frame cut after its first byte -/
+theorem decodeBody_ff_truncated (b0 : UInt8) (h : b0.toNat / 16 = 1) : decodeBody [b0] = none := by
+  simp [decodeBody, byteAt_cons_zero, h]
+
+/-- Flow Control with fewer than three bytes -/
+theorem decodeBody_fc_truncated (b0 b1 : UInt8) (h : b0.toNat / 16 = 3) : decodeBody [b0, b1] = none := by
+  simp [decodeBody, byteAt_cons_zero, h]
+
+/-! ### Flow Control frames and the reception FSM -/
+
+/-- `handleFc` while the transmitter is idle: the documented error, nothing else changes -/
+theorem handleFc_idle (s : State) (fc : FcFrame) (h : s.txState = .idle) :
+    s.handleFc fc = { s with log := .err s.now .UnexpectedFlowControl :: s.log } := by
+  unfold handleFc; simp [h, State.error, emit]
+
+theorem fcPart_idle (s : State) (fc : FcFrame) (h : s.txState = .idle) (hl : s.lastFc = some fc)
+    (hst : fc.status ≠ 2) :
+    fcPart s = ({ s with lastFc := none, log := .err s.now .UnexpectedFlowControl :: s.log }, false) := by
+  unfold fcPart
+  simp [hl, hst, handleFc, h, State.error, emit]
+
+/-! ### the N_Cr timeout -/
+
+theorem checkTimeoutsRx_expired (s : State) (h : s.timerCf.timedOut s.now = true) :
+    s.checkTimeoutsRx =
+      { s with actualRxdl := none, rxState := .idle, rxBuf := [], pendingFc := false, lastFc := none,
+               timerCf := s.timerCf.stop, log := .err s.now .ConsecutiveFrameTimeout :: s.log } := by
+  unfold checkTimeoutsRx; simp [h, stopReceiving, State.error, emit]
+
+
+/-! ### reachable states and recovery (D) -/
+
+theorem processRx_cfg_addr (s : State) (m : CanMsg) :
+    (s.processRx m).1.cfg = s.cfg ∧ (s.processRx m).1.addr = s.addr := by
+  refine processRx_cases s m (fun r => r.1.cfg = s.cfg ∧ r.1.addr = s.addr) ?_ ?_ ?_ ?_ ?_ ?_ ?_ ?_ ?_ ?_ ?_ ?_ ?_
+  case refine_13 => intros; split <;> exact ⟨rfl, rfl⟩
+  all_goals intros; exact ⟨rfl, rfl⟩
+
+theorem clearTxQueue_cfg_addr (q : List Req) : ∀ s : State,
+    (s.clearTxQueue q).cfg = s.cfg ∧ (s.clearTxQueue q).addr = s.addr := by
+  induction q with
+  | nil => intro s; exact ⟨rfl, rfl⟩
+  | cons r rest ih => intro s; unfold clearTxQueue; exact ih _
+
+theorem stopSending_cfg_addr (s : State) (b : Bool) :
+    (s.stopSending b).cfg = s.cfg ∧ (s.stopSending b).addr = s.addr := by
+  unfold stopSending; split <;> exact ⟨rfl, rfl⟩
+
+theorem reset_cfg_addr (s : State) : s.reset.cfg = s.cfg ∧ s.reset.addr = s.addr := by
+  have h1 := clearTxQueue_cfg_addr s.txQueue { s with rxQueue := [] }
+  have h2 := stopSending_cfg_addr (clearTxQueue { s with rxQueue := [] } s.txQueue) false
+  unfold reset
+  exact ⟨h2.1.trans h1.1, h2.2.trans h1.2⟩
+
+/-- one step of the layer as seen from outside (any order, any arguments) -/
+inductive Step : State → State → Prop
+  | rx (s : State) (m : CanMsg) : Step s (s.processRx m).1
+  | tx (s : State) : Step s s.processTx.1
+  | timeouts (s : State) : Step s s.checkTimeoutsRx
+  | stopReceiving (s : State) : Step s s.stopReceiving
+  | reset (s : State) : Step s s.reset
+  | send (s : State) (a : SendArgs) : Step s (s.send a).1
+  | recv (s : State) : Step s s.recv.1
+  | advance (s : State) (dt : Nat) : Step s (s.advance dt)
+
+/-- states reachable from the initial state of a layer with configuration `c` and address `a` -/
+inductive Reach (c : Cfg) (a : Addr) : State → Prop
+  | init : Reach c a (State.init c a)
+  | step {s s' : State} : Reach c a s → Step s s' → Reach c a s'
+
+theorem step_inv {s s' : State} (h : Step s s') (hi : RxInv s) :
+    RxInv s' ∧ s'.cfg = s.cfg ∧ s'.addr = s.addr := by
+  cases h with
+  | rx m => exact ⟨rxInv_processRx s m hi, processRx_cfg_addr s m⟩
+  | tx => exact ⟨rxInv_processTx s hi, (rxSame_processTx s).cfg, (rxSame_processTx s).addr⟩
+  | timeouts =>
+    refine ⟨rxInv_checkTimeoutsRx s hi, ?_⟩
+    unfold checkTimeoutsRx; split <;> exact ⟨rfl, rfl⟩
+  | stopReceiving => exact ⟨rxInv_stopReceiving s, rfl, rfl⟩
+  | reset => exact ⟨rxInv_reset s, reset_cfg_addr s⟩
+  | send a => exact ⟨rxInv_of_same hi (rxSame_send s a), (rxSame_send s a).cfg, (rxSame_send s a).addr⟩
+  | recv => exact ⟨rxInv_of_same hi (rxSame_recv s), (rxSame_recv s).cfg, (rxSame_recv s).addr⟩
+  | advance dt => exact ⟨rxInv_of_same hi (rxSame_advance s dt), rfl, rfl⟩
+
+theorem reach_inv {c : Cfg} {a : Addr} {s : State} (h : Reach c a s) : RxInv s ∧ s.cfg = c ∧ s.addr = a := by
+  induction h with
+  | init => exact ⟨rxInv_init c a, rfl, rfl⟩
+  | step _ hs ih =>
+    obtain ⟨h1, h2, h3⟩ := step_inv hs ih.1
+    exact ⟨h1, h2.trans ih.2.1, h3.trans ih.2.2⟩
+
+/-- D, recovery: after ANY history the next well-formed message is received intact. -/
+theorem recovery (c : Cfg) (a : Addr) (s s' : State) (hr : Reach c a s) (pre p : Bytes) (frames : List Bytes)
+    (hw : Spec.WellFormed pre p frames) (hpre : pre.length = a.rx.rxPrefixSize)
+    (hmax : p.length ≤ c.maxFrameSize) (hf : Feeds s frames s') :
+    delivered s' = delivered s ++ [p] ∧ s'.rxState = .idle := by
+  obtain ⟨_, hc, ha⟩ := reach_inv hr
+  obtain ⟨h1, h2, _⟩ := wellFormed_delivers s s' pre p frames hw (by rw [ha]; exact hpre) (by rw [hc]; exact hmax) hf
+  exact ⟨h1, h2⟩
+
+
+
+theorem txTail_idle_eq (s : State) (a : Nat) (h3 : s.txState = .idle) (h4 : s.txQueue = [])
+    (h5 : s.timerFc.timedOut s.now = false) : txTail s a = ({ s with txQueue := [] }, none, false) := by
+  have ht : tailTimeout s = s := by unfold tailTimeout; simp [h5]
+  have hd : tailDepleted s = s := by unfold tailDepleted; simp [h3]
+  have hf : fsmPart s a = ({ s with txQueue := [] }, none, false) := by
+    unfold fsmPart; simp [h3, h4, readTxQueue]
+  unfold txTail
+  rw [ht, hd, hf]
+  simp only [h3]
+  unfold tailOut
+  simp only [ne_eq, not_true_eq_false, decide_false, Bool.false_and, Bool.false_eq_true, if_false]
+  split <;> rfl
+
+/-- a Flow Control (not Overflow) received while nothing is being transmitted: the transmit pass logs
+    exactly `UnexpectedFlowControlError`, consumes the mailbox, emits nothing -/
+theorem processTx_unexpected_fc (s : State) (fc : FcFrame) (h1 : s.pendingFc = false)
+    (h2 : s.lastFc = some fc) (hst : fc.status ≠ 2)
+    (h3 : s.txState = .idle) (h4 : s.txQueue = []) (h5 : s.timerFc.timedOut s.now = false) :
+    s.processTx =
+      ({ s with lastFc := none, txQueue := [], log := .err s.now .UnexpectedFlowControl :: s.log }, none, false) := by
+  rw [processTx_eq]
+  have hp : pendPart s = (s, none) := by unfold pendPart; simp [h1]
+  rw [hp]
+  simp only [fcPart_idle s fc h3 h2 hst]
+  exact txTail_idle_eq _ _ h3 h4 h5
+
+/-! ### link to `rxLoop`, Flow Control decoding -/
+
+
+/-- Flow Control frame as emitted by a conforming peer (or by this layer), after the prefix -/
+theorem decode_fc (pre pad : Bytes) (st bs stmin : Nat) (hst : st < 3) (hv : validStmin (stmin % 256) = true) :
+    decode (pre ++ fcData st bs stmin ++ pad) pre.length =
+      some ⟨.fc st (bs % 256) (stmin % 256), (pre ++ fcData st bs stmin ++ pad).length,
+            max 8 (pre ++ fcData st bs stmin ++ pad).length⟩ := by
+  rw [List.append_assoc, decode_prefix, decodeBody_fc st bs stmin pad hst hv]
+  simp
+
+/-- what `rxLoop` does with an inbox entry before calling `processRx` (clock, `rx` event, timeout check)
+    is reception-neutral as long as the N_Cr timer has not expired at the arrival time -/
+theorem rxSame_rxLoop_entry (s : State) (rest : List (Nat × CanMsg)) (dt : Nat) (m : CanMsg)
+    (h : s.timerCf.timedOut (s.now + dt) = false) :
+    RxSame s ((({ s with inbox := rest, now := s.now + dt } : State).emit (.rx (s.now + dt) m)).checkTimeoutsRx) := by
+  have h1 : RxSame s (({ s with inbox := rest, now := s.now + dt } : State).emit (.rx (s.now + dt) m)) :=
+    rxView_emit_rx _ _ _
+  exact h1.trans (rxSame_checkTimeoutsRx _ h)
+
+/-- one accepted inbox entry through `rxLoop`: exactly `processRx` after a neutral step (when the frame
+    asks for an immediate transmit pass, as First Frames and block-completing frames do) -/
+theorem rxLoop_accepted_imm (doTx : Bool) (s : State) (st : Stats) (rest : List (Nat × CanMsg)) (dt : Nat)
+    (m : CanMsg)
+    (hme : s.addr.rx.isForMe m = true)
+    (himm : ((({ s with inbox := rest, now := s.now + dt } : State).emit (.rx (s.now + dt) m)).checkTimeoutsRx.processRx m).2.1
+      = true) :
+    (s.rxLoop doTx st ((dt, m) :: rest)).1 =
+      ((({ s with inbox := rest, now := s.now + dt } : State).emit (.rx (s.now + dt) m)).checkTimeoutsRx.processRx m).1 := by
+  have hc : ((({ s with inbox := rest, now := s.now + dt } : State).emit (.rx (s.now + dt) m)).checkTimeoutsRx).addr = s.addr := by
+    unfold checkTimeoutsRx; split <;> rfl
+  unfold rxLoop
+  simp only [hc, hme, if_true]
+  rw [if_pos himm]
 
 end Isotp.Rx
